@@ -87,11 +87,6 @@ everything active was entered) -/
 def enteredWF (E : List Nat) (roots : List Tree) : Bool :=
   downClosedL E roots && E.all (idsL roots).contains
 
-/-- no entered state shares its state OBJECT with another active state (finding
-F-C18-shared-state-object: `_final_check` recognises "just entered" by object identity) -/
-def noShared (D : Defs) (E : List Nat) (roots : List Tree) : Bool :=
-  E.all fun e => (idsL roots).all fun i => D.obj e != D.obj i || e == i
-
 end Final
 end TM
 
